@@ -16,6 +16,7 @@ import (
 	"sort"
 	"strconv"
 	"strings"
+	"sync/atomic"
 	"time"
 
 	"verif/checks"
@@ -160,7 +161,39 @@ func worker(args []string) int {
 			deadline = time.Now().Add(time.Duration(v) * time.Second)
 		}
 	}
+	runTimeout := 90 * time.Second
+	if s := os.Getenv("VERIF_RUN_TIMEOUT_S"); s != "" {
+		if v, err := strconv.Atoi(s); err == nil && v > 0 {
+			runTimeout = time.Duration(v) * time.Second
+		}
+	}
+	var curRun atomic.Int64
+	curRun.Store(-1)
+	var curStart atomic.Int64
+	go func() {
+		// wall-clock watchdog: a single run that neither returns nor fails for
+		// runTimeout is recorded (seed only) and the process gives up; the
+		// master confirms it in a fresh process before anything is reported
+		for {
+			time.Sleep(time.Second)
+			i := curRun.Load()
+			if i < 0 {
+				continue
+			}
+			if time.Since(time.Unix(0, curStart.Load())) > runTimeout {
+				rf := &replayFile{Property: id, VerifSeed: seed, RunIndex: int(i), RunSeed: runSeed(seed, id, int(i)), Tier: string(tier), Class: "watchdog/run-exceeded-" + runTimeout.String(), Msg: "a single simulated run did not finish within the wall-clock watchdog"}
+				b, _ := json.MarshalIndent(rf, "", " ")
+				path := filepath.Join(verifDir(), "replays", fmt.Sprintf("%s-%d-%d-hang.json", id, seed, i))
+				_ = os.MkdirAll(filepath.Dir(path), 0o755)
+				_ = os.WriteFile(path, b, 0o644)
+				_ = os.WriteFile(out+".hang", []byte(path), 0o644)
+				os.Exit(3)
+			}
+		}
+	}()
 	for i := wi; i < N; i += W {
+		curStart.Store(time.Now().UnixNano())
+		curRun.Store(int64(i))
 		if !deadline.IsZero() && time.Now().After(deadline) {
 			wo.Extra["runs_cut_by_wallclock_cap"] += (N - i + W - 1) / W
 			break
@@ -433,7 +466,26 @@ func replay(id, path string) int {
 		fmt.Fprintf(os.Stderr, "replay file is for %s, not %s\n", rf.Property, id)
 		return exitHarness
 	}
-	res := ck.Run(tape.FromSnapshot(rf.RunSeed, rf.Tapes), checks.Tier(rf.Tier))
+	ts := tape.FromSnapshot(rf.RunSeed, rf.Tapes)
+	if rf.Tapes == nil {
+		ts = tape.NewSet(rf.RunSeed) // recorded by the watchdog: seed only
+	}
+	go func() {
+		limit := 180 * time.Second
+		if s := os.Getenv("VERIF_RUN_TIMEOUT_S"); s != "" {
+			if v, err := strconv.Atoi(s); err == nil && v > 0 {
+				limit = 2 * time.Duration(v) * time.Second
+			}
+		}
+		time.Sleep(limit)
+		if id == "C13" {
+			fmt.Printf("class: c13/unbounded-work/watchdog\na single library call did not return within %v on a DAG of a few kilobytes\nVIOLATION property=%s replay=%s\n", limit, id, path)
+			os.Exit(exitViolation)
+		}
+		fmt.Fprintf(os.Stderr, "replay exceeded %v (harness trouble, not a verdict)\n", limit)
+		os.Exit(exitHarness)
+	}()
+	res := ck.Run(ts, checks.Tier(rf.Tier))
 	sc, _ := json.Marshal(res.Scenario)
 	fmt.Printf("replay %s seed=%d run=%d tier=%s\nscenario: %s\n", id, rf.VerifSeed, rf.RunIndex, rf.Tier, sc)
 	if res.Violation == nil {
@@ -534,9 +586,18 @@ func master(id string, tier checks.Tier) int {
 	harnessTrouble := false
 	for w := 0; w < W; w++ {
 		r := <-done
+		if r.err != nil && r.code == 3 {
+			continue // watchdog: handled below through the .hang marker
+		}
 		if r.err != nil {
 			harnessTrouble = true
 			fmt.Fprintf(os.Stderr, "worker failed (exit %d): %v\n%s\n", r.code, r.err, tail(r.out, 4000))
+		}
+	}
+	var hangs []string
+	for w := 0; w < W; w++ {
+		if b, err := os.ReadFile(filepath.Join(tmp, fmt.Sprintf("w%d.json.hang", w))); err == nil {
+			hangs = append(hangs, string(b))
 		}
 	}
 	if harnessTrouble {
@@ -549,6 +610,10 @@ func master(id string, tier checks.Tier) int {
 	for w := 0; w < W; w++ {
 		b, err := os.ReadFile(filepath.Join(tmp, fmt.Sprintf("w%d.json", w)))
 		if err != nil {
+			if _, herr := os.Stat(filepath.Join(tmp, fmt.Sprintf("w%d.json.hang", w))); herr == nil {
+				total.Extra["workers_stopped_by_watchdog"]++
+				continue
+			}
 			fmt.Fprintln(os.Stderr, "missing worker output:", err)
 			return exitHarness
 		}
@@ -643,6 +708,31 @@ func master(id string, tier checks.Tier) int {
 		fmt.Printf("violation class=%s: %s\n", cls, total.Msgs[i])
 		fmt.Printf("VIOLATION property=%s replay=%s\n", id, total.Violations[i])
 		reported++
+	}
+
+	// runs stopped by the watchdog: confirm in a fresh process
+	for hi, hp := range hangs {
+		if hi > 0 && reported > 0 {
+			total.Extra["further_watchdog_stops_not_replayed"]++
+			continue
+		}
+		cmd := exec.Command(self, "replay", id, hp)
+		out, _ := cmd.CombinedOutput()
+		code := -1
+		if cmd.ProcessState != nil {
+			code = cmd.ProcessState.ExitCode()
+		}
+		switch {
+		case code == exitViolation:
+			fmt.Print(tail(string(out), 1500))
+			reported++
+		case code == exitOK:
+			fmt.Fprintf(os.Stderr, "note: run %s exceeded the watchdog in the batch but finished alone; not reported\n", hp)
+			total.Extra["watchdog_not_confirmed"]++
+		default:
+			fmt.Fprintf(os.Stderr, "harness trouble: watchdog replay %s exit %d\n%s\n", hp, code, tail(string(out), 1500))
+			harnessTrouble = true
+		}
 	}
 
 	// regression replays: every finding that was ever repaired stays as a
